@@ -279,8 +279,12 @@ def hunt_rules(chk, repo):
         stores = [st for st in ast.walk(ap_.node) if isinstance(st, ast.Assign) and isinstance(st.targets[0], ast.Attribute) and st.targets[0].attr in read]
         if stores and all(any(isinstance(c, ast.Call) and isinstance(c.func, ast.Name) and c.func.id == "_path_safe" for c in ast.walk(st.value)) for st in stores):
             chk.ok("C14.quoting", stores[0], f"{cname}.add_prefix: the matcher (`self.{stores[0].targets[0].attr}`) gets the path_safe form of the prefix")
+        elif not stores:
+            # (round 6, seed C14-6: the rule used to crash here) the prefix has to reach what _match() compares the request path with
+            chk.violation("C14.prefix.matcher", ap_, f"{cname}.add_prefix", "self.<matcher read by _match()> = <prefix> + ...",
+                          f"{cname}.add_prefix() does not update any attribute that _match() reads ({', '.join(sorted(read)) or 'none'}): the resource is indexed and url_for() answers under the prefixed path while its matcher still matches the unprefixed one - if the prefix is applied later (on freeze), an application that was frozen before an outer add_subapp() prefixed it again never gets it: every dynamic route of a twice-nested sub-application is 404")
         else:
-            at = stores[0] if stores else ap_
+            at = stores[0]
             chk.violation("C14.quoting", at, K.short(at), "_path_safe(prefix)",
                           f"{cname}.add_prefix puts the quoted prefix in front of what _match() compares with the decoded URL.path_safe: under `add_subapp('/my%20docs', sub)` the sub-application is entered but none of its resources can match - `GET /my%20docs/1` is 404 although url_for() returns exactly that URL")
     chk.expect_count("C14.quoting.prefix", napf, 2, "add_prefix implementations with a matcher")
